@@ -1,8 +1,3 @@
-From Coq Require Import List ZArith Bool Lia.
-From Verif Require Import lib.Wire gen.Consts_c16 c16.Model c16.Spec.
-Import ListNotations.
-Local Open Scope Z_scope.
-
-Lemma consts_spec_l :
-  rl_window_reqs = MINUTE /\ rl_window_peer = MINUTE /\ rl_window_dd = MINUTE.
-Proof. repeat split; reflexivity. Qed.
+(* C16 — lemma files: Proofs_dd (readDialData), Proofs_rl (rateLimiter),
+   Proofs_serve (dial clauses of a session), Proofs_rates (rate clauses of a session) *)
+From Verif Require Export c16.Proofs_dd c16.Proofs_rl c16.Proofs_serve c16.Proofs_rates.
